@@ -1,8 +1,22 @@
 """C20 - clear_config returns the configuration to its pristine state."""
+import copy
+import enum
+import os
+import sys
+
+sys.path.insert(0, os.path.join(os.path.dirname(os.path.dirname(os.path.dirname(
+    os.path.abspath(__file__)))), 'fixtures'))
+
 import gin
 from gin import config as gc
 from vf import rt
 from vf import world
+
+
+class Color20(enum.Enum):
+  RED = 1
+  BLUE = 2
+
 
 CONST_SETS = [
     [],
@@ -12,14 +26,40 @@ CONST_SETS = [
     [('x.y.Z', False), ('y.Z', True), ('Z', True), ('w.Z', False)],
     [('t.MUST_REQ', False), ('u.K', False)],       # a user constant whose VALUE is the REQUIRED sentinel
     [('gin.REQUIRED', True), ('t.K', False)],      # gin.REQUIRED itself overwritten in interactive mode
+    [('gin.MAX', False), ('u.STEPS', False)],      # a user constant under Gin's own module name
+    [('@enum', False), ('z.RED', False)],          # constants_from_enum: vw20e.Color20.RED / .BLUE
 ]
 NCS = len(CONST_SETS)
+
+
+def _define(idx, objs=None):
+  """Defines constant set `idx`; returns {name: object} in definition order.
+
+  `objs` (name -> object) lets two runs define the very same objects."""
+  defined = {}
+  for name, interactive in CONST_SETS[idx]:
+    if name == '@enum':
+      gin.constants_from_enum(Color20, module='vw20e')
+      for member in Color20.__members__.values():
+        defined['vw20e.Color20.' + member.name] = member
+      continue
+    if objs is not None and name in objs:
+      obj = objs[name]
+    else:
+      obj = gin.REQUIRED if name.endswith('_REQ') else object()
+    if interactive:
+      with gin.config.interactive_mode():
+        gin.constant(name, obj)
+    else:
+      gin.constant(name, obj)
+    defined[name] = obj
+  return defined
 
 
 def c20_step(b: bool, imp: bool, op: bool, fin: bool, sing: bool, failp: bool, failb: bool,
              consts: int, clear_constants: bool, v0: int, v1: int) -> bool:
   """
-  pre: 0 <= consts < 7
+  pre: 0 <= consts < 9
   """
   world.fresh()
   with rt.native():
@@ -31,15 +71,7 @@ def c20_step(b: bool, imp: bool, op: bool, fin: bool, sing: bool, failp: bool, f
   clear_constants = rt.flag(clear_constants)
   rt.sig(('clear', b, imp, op, fin, sing, failp, failb, consts, clear_constants),
          nontrivial=b or imp or op or fin or sing or consts > 0)
-  defined = {}
-  for name, interactive in CONST_SETS[consts]:
-    obj = gin.REQUIRED if name.endswith('_REQ') else object()
-    if interactive:
-      with gin.config.interactive_mode():
-        gin.constant(name, obj)
-    else:
-      gin.constant(name, obj)
-    defined[name] = obj
+  defined = _define(consts)
   if b:
     gin.bind_parameter('vw.dflt.a', v0)
     gin.bind_parameter('s/vw.dflt.b', v1)
@@ -138,6 +170,560 @@ def c20_step(b: bool, imp: bool, op: bool, fin: bool, sing: bool, failp: bool, f
   return (set(got) == {'a', 'b'} and rt.same('ga', got['a'], v1) and rt.same('gb', got['b'], v1)) or rt.no('get_bindings after clear')
 
 
+# =====================================================================================================
+# c20_life: a second lifetime after the clear, compared with the same lifetime after world.fresh()
+# =====================================================================================================
+import vf20x.mod as _fx   # fixture module, registered only through dynamic registration
+
+if 'vw20.clearer' in gc._REGISTRY:
+  clearer = gc._REGISTRY['vw20.clearer'].wrapper
+else:
+  @gin.configurable('clearer', module='vw20')
+  def clearer(cc=False):
+    """a configurable whose BODY clears the configuration"""
+    gin.clear_config(clear_constants=cc)
+    return gin.config_is_locked()
+
+_DYN = ('from __gin__ import dynamic_registration\nimport vf20x.mod\n'
+        'vf20x.mod.fn.x = 1\nvf20x.mod.consumer.p = @vf20x.mod.fn()\n')
+
+# Registrations are process-wide and are never undone: make the ones a dynamic-registration parse would add
+# right away, so that every run (first path of a process or not, run under test or reference run) sees the
+# same registry.
+if 'vf20x.mod.fn' not in gc._REGISTRY:
+  world.fresh()
+  gin.parse_config(_DYN)
+  world.fresh()
+
+
+def _try(out, f):
+  """Runs one API step; only the KIND of outcome is recorded (messages embed addresses and config strings)."""
+  try:
+    r = f()
+  except Exception as e:  # pylint: disable=broad-except
+    out.append(('exc', type(e).__name__))
+    return None
+  out.append(('ok',))
+  return r
+
+
+_LABELS = []   # (object, label) of the current lifetime
+
+
+def _val(v):
+  """Observed values in a form that can be compared across processes."""
+  if v is None or isinstance(v, (bool, int, str, float)):
+    return v
+  if v is gin.REQUIRED:
+    return ('gin.REQUIRED sentinel',)
+  if isinstance(v, enum.Enum):
+    return ('enum', v.name)
+  if isinstance(v, (gc.ConfigurableReference, gc._UnknownConfigurableReference)):
+    return ('ref', type(v).__name__, repr(v) if isinstance(v, gc.ConfigurableReference) else v.selector)
+  if isinstance(v, dict):
+    return {k: _val(x) for k, x in v.items()}
+  if isinstance(v, (list, tuple)):
+    return type(v)(_val(x) for x in v)
+  for obj, label in _LABELS:
+    if v is obj:
+      return label
+  return ('object of type', type(v).__name__)
+
+
+def _scoped(scopes, f):
+  if not scopes:
+    return f()
+  with gin.config_scope(scopes[0]):
+    return _scoped(scopes[1:], f)
+
+
+# ---- histories before the clear ---------------------------------------------------------------------
+_T1 = ('import os\nM = 3\ns/M = 4\nvw.dflt.a = %M\nvw.dflt.b = 2\ns/vw.dflt.b = %s/M\n'
+       'vw.cons.p = @vw.src()\nvw.src.v = 7\ns/t/vw.dflt.a = 13\nvw.Kinit.a = 14\nvw.Kmeth.meth.a = 15\n')
+
+
+def _pre_parsed(held, out):
+  """text with locations: import, macros (plain and scoped), reference; everything evaluated at least once"""
+  _try(out, lambda: gin.parse_config(_T1))
+  _try(out, world.dflt)
+  _try(out, lambda: _scoped(['s'], world.dflt))
+  _try(out, lambda: _scoped(['s', 't'], world.dflt))
+  _try(out, world.cons)
+  _try(out, world.Kinit)
+  _try(out, lambda: world.Kmeth().meth())
+  _try(out, lambda: gin.config.singleton_value('key', object))
+  # objects obtained now, used after the clear
+  held['f'] = _try(out, lambda: gin.get_configurable('s/vw.dflt'))
+  held['kcls'] = _try(out, lambda: gin.get_configurable('s/vw.Kreg'))
+  held['ref'] = _try(out, lambda: gin.query_parameter('vw.cons.p'))
+  with gin.config_scope('s') as sc:
+    held['sc'] = sc
+
+
+def _pre_locked(held, out):
+  """the same, finalized, then calls and queries under several scopes / flags while locked"""
+  _pre_parsed(held, out)
+  _try(out, gin.finalize)
+  _try(out, lambda: _scoped(['s'], world.dflt))
+  _try(out, lambda: _scoped(['s', 't'], world.dflt))
+  _try(out, lambda: _scoped(['s'], world.Kinit))
+  _try(out, lambda: gin.get_bindings('s/vw.dflt'))
+  _try(out, lambda: gin.get_bindings('s/vw.dflt', inherit_scopes=False))
+  _try(out, lambda: gin.get_bindings('s/t/vw.dflt'))
+  _try(out, lambda: gin.get_bindings('s/t/vw.dflt', inherit_scopes=False))
+  _try(out, lambda: gin.get_bindings('vw.cons', resolve_references=False))
+  _try(out, lambda: gin.get_bindings('vw.Kmeth.meth'))
+  _try(out, lambda: gin.get_configurable('s/vw.dflt')())
+  _try(out, lambda: gin.get_configurable('s/t/vw.dflt')())
+
+
+def _pre_dynamic(held, out):
+  _try(out, lambda: gin.parse_config(_DYN))
+  _try(out, lambda: gin.get_configurable('vf20x.mod.consumer')())
+
+
+def _pre_from_import(held, out):
+  _try(out, lambda: gin.parse_config('from os import path\nvw.dflt.a = 1\n'))
+  _try(out, world.dflt)
+
+
+def _parse_fail(text, **kw):
+  def pre(held, out):
+    _try(out, lambda: gin.parse_config(text, **kw))
+    _try(out, world.dflt)
+  return pre
+
+
+def _pre_locked_failures(held, out):
+  _try(out, lambda: gin.bind_parameter('vw.dflt.a', 1))
+  _try(out, gin.finalize)
+  _try(out, lambda: gin.bind_parameter('vw.dflt.b', 2))                 # RuntimeError
+  _try(out, lambda: gin.parse_config('import os\nvw.dflt.a = 5\n'))    # fails at the first binding
+  _try(out, gin.finalize)                                              # second finalize
+  _try(out, world.dflt)
+
+
+def _pre_unknown_ref(held, out):
+  _try(out, lambda: gin.parse_config('import nosuch_mod_20\nvw.cons.p = @nosuch()\nvw.dflt.a = 1\n',
+                                     skip_unknown=True))
+  _try(out, gin.finalize)                                              # find_unknown_references_hook raises
+  _try(out, world.dflt)
+
+
+def _pre_required(held, out):
+  _try(out, lambda: gin.parse_config('vw.dflt.a = %gin.REQUIRED\nvw.dflt.b = 1\n'))
+  _try(out, gin.finalize)                                              # find_missing_overrides_hook raises
+
+
+def _pre_hooks(held, out):
+  """the hooks themselves are registrations (see _registrations)"""
+  _try(out, lambda: gin.bind_parameter('vw.dflt.a', 1))
+  _try(out, gin.finalize)
+  _try(out, lambda: _scoped(['s'], world.dflt))
+
+
+def _pre_singleton_ref(held, out):
+  _try(out, lambda: gin.parse_config('vw.cons.p = @k/gin.singleton()\n'
+                                     'k/gin.singleton.constructor = @vw.mkobj\n'))
+  _try(out, world.cons)
+  _try(out, world.cons)
+
+
+def _pre_unlock_rebind(held, out):
+  _try(out, lambda: gin.bind_parameter('vw.dflt.a', 1))
+  _try(out, gin.finalize)
+
+  def rebind():
+    with gin.unlock_config():
+      gin.bind_parameter('vw.dflt.a', 5)
+      gin.bind_parameter('s/vw.dflt.b', 6)
+  _try(out, rebind)
+  _try(out, lambda: _scoped(['s'], world.dflt))
+
+
+_FILES = {'top.gin': 'import os\nvw.dflt.a = 1\ninclude "sub.gin"\nvw.dflt.b = 3\n',
+          'sub.gin': 'vw.src.v = 2\ninclude "missing.gin"\n'}
+
+
+def _pre_include(held, out):
+  _try(out, lambda: gin.parse_config_file('top.gin'))
+  _try(out, world.dflt)
+
+
+PRES = [
+    ('nothing', lambda held, out: None),
+    ('parsed text, macros, reference, all evaluated; objects held', _pre_parsed),
+    ('same + finalize + scoped calls/queries while locked', _pre_locked),
+    ('dynamic registration', _pre_dynamic),
+    ('from os import path', _pre_from_import),
+    ('parse fails after an import', _parse_fail('import os\nvw.dflt.a = 1\nvw.nosuch.x = 2\n')),
+    ('parse fails: syntax error mid-value', _parse_fail('vw.dflt.a = 1\nvw.dflt.b = [1,\n')),
+    ('parse fails: denylisted parameter', _parse_fail('vw.dflt.a = 1\nvw.deny_b.b = 1\n')),
+    ('parse fails: ambiguous selector', _parse_fail('vw.dflt.a = 1\nfam.p = 1\n')),
+    ('parse fails inside a block', _parse_fail('vw.dflt.a = 1\nvw.dflt:\n  b = 2\n  zzz = 3\n')),
+    ('failed operations while locked', _pre_locked_failures),
+    ('unknown reference + unknown import skipped, finalize fails', _pre_unknown_ref),
+    ('%gin.REQUIRED never overridden, finalize fails', _pre_required),
+    ('two hooks with conflicting keys, finalize fails', _pre_hooks),
+    ('a hook that adds a binding, finalize', _pre_hooks),
+    ('singleton created through a reference', _pre_singleton_ref),
+    ('unlock_config rebinding after finalize', _pre_unlock_rebind),
+    ('nested include fails halfway (in-memory files)', _pre_include),
+]
+NPRE = len(PRES)
+P_CONFLICT, P_ADDHOOK, P_INCLUDE = 13, 14, 17
+
+
+def _registrations(pre):
+  """Things a fresh process with the same registrations has as well (clear_config must not touch them)."""
+  if pre == P_CONFLICT:
+    gin.config.register_finalize_hook(lambda cfg: {'vw.dflt.b': 1})
+    gin.config.register_finalize_hook(lambda cfg: {'dflt.b': 2})
+  elif pre == P_ADDHOOK:
+    gin.config.register_finalize_hook(lambda cfg: {'s/vw.dflt.b': 9})
+  elif pre == P_INCLUDE:
+    world.use_mem_fs(_FILES)
+
+
+# ---- ways of clearing --------------------------------------------------------------------------------
+HOWS = ['plain', 'twice in a row', 'inside unlock_config()', 'inside a configurable body under scope s',
+        "while config_scope('s') is open", 'while interactive mode is on',
+        'clear, rebuild, clear (clear_constants differs)']
+NHOW = len(HOWS)
+H_UNLOCK, H_REBUILD = 2, 6
+
+
+def _do_clear(how, cc, out):
+  """Returns False when a clear raised or (how=2) the configuration was locked right after the clear."""
+  try:
+    if how == 0:
+      gin.clear_config(clear_constants=cc)
+    elif how == 1:
+      gin.clear_config(clear_constants=cc)
+      gin.clear_config(clear_constants=cc)
+    elif how == 2:
+      with gin.unlock_config():
+        gin.clear_config(clear_constants=cc)
+        if gin.config_is_locked():
+          return False
+    elif how == 3:
+      with gin.config_scope('s'):
+        if clearer(cc):
+          return False
+    elif how == 4:
+      with gin.config_scope('s'):
+        gin.clear_config(clear_constants=cc)
+    elif how == 5:
+      with gin.config.interactive_mode():
+        gin.clear_config(clear_constants=cc)
+    else:
+      gin.clear_config(clear_constants=not cc)
+      if gin.config_is_locked():
+        return False
+      _try(out, lambda: gin.parse_config('import os\nM = 1\nvw.dflt.a = %M\ns/vw.dflt.b = 21\n'))
+      _try(out, lambda: _scoped(['s'], world.dflt))
+      _try(out, lambda: gin.config.singleton_value('key', object))
+      _try(out, gin.finalize)
+      _try(out, lambda: _scoped(['s'], world.dflt))
+      gin.clear_config(clear_constants=cc)
+  except Exception:  # pylint: disable=broad-except
+    return False
+  return True
+
+
+# ---- observations ------------------------------------------------------------------------------------
+_GB = [('vw.dflt', {}), ('s/vw.dflt', {}), ('s/vw.dflt', dict(inherit_scopes=False)), ('s/t/vw.dflt', {}),
+       ('s/t/vw.dflt', dict(inherit_scopes=False)), ('vw.cons', dict(resolve_references=False)),
+       ('vw.cons', {}), ('vw.Kinit', {}), ('s/vw.Kinit', {}), ('vw.Kmeth.meth', {}), ('s/vw.src', {}),
+       ('vf20x.mod.fn', {}), ('vf20x.mod.consumer', dict(resolve_references=False))]
+_QUERIES = ['vw.dflt.a', 'vw.dflt.b', 's/vw.dflt.b', 's/t/vw.dflt.a', 'vw.cons.p', 'vw.src.v', 's/vw.src.v',
+            'M/gin.macro.value', 's/M/gin.macro.value', 'N/gin.macro.value', 'vw.Kinit.a',
+            'vw.Kmeth.meth.a', 'vf20x.mod.fn.x', 'vf20x.mod.consumer.p', 'k/gin.singleton.constructor']
+
+
+def _observe(names):
+  o = [('locked', gin.config_is_locked())]
+  for prov in (False, True):
+    for fn in (gin.config_str, gin.operative_config_str):
+      try:
+        o.append((fn.__name__, prov, fn(show_provenance=prov)))
+      except Exception as e:  # pylint: disable=broad-except
+        # (a macro used while unbound leaves an empty operative record that the printer cannot handle - in a
+        #  fresh process just the same)
+        o.append((fn.__name__, prov, 'exc', type(e).__name__))
+  for sel, kw in _GB:
+    try:
+      o.append(('get_bindings', sel, sorted(kw), _val(gin.get_bindings(sel, **kw))))
+    except Exception as e:  # pylint: disable=broad-except
+      o.append(('get_bindings', sel, sorted(kw), 'exc', type(e).__name__))
+  for key in _QUERIES + ['gin.REQUIRED'] + list(names):
+    try:
+      o.append(('query', key, _val(gin.query_parameter(key))))
+    except Exception as e:  # pylint: disable=broad-except
+      o.append(('query', key, 'exc', type(e).__name__))
+  o.append(('constants', sorted(n for n, _ in gc._CONSTANTS.items())))
+  o.append(('stores', len(gc._CONFIG), len(gc._IMPORTS), len(gc._OPERATIVE_CONFIG), len(gc._SINGLETONS)))
+  o.append(('parse contexts', len(gc._PARSE_CONTEXTS)))
+  o.append(('scope', gin.current_scope()))
+  return o
+
+
+# ---- second lifetimes --------------------------------------------------------------------------------
+_T2 = ('import math\nN = 5\nvw.dflt.a = %N\ns/vw.dflt.b = 6\ns/t/vw.dflt.a = 8\nvw.cons.p = @s/vw.src()\n'
+       's/vw.src.v = 9\nvw.Kinit.a = 11\nvw.Kmeth.meth.a = 12\n')
+
+
+def _calls(held, out):
+  m1, m2 = object(), object()
+  _try(out, world.dflt)
+  _try(out, lambda: _scoped(['s'], world.dflt))
+  _try(out, lambda: _scoped(['s', 't'], world.dflt))
+  _try(out, world.cons)
+  _try(out, world.Kinit)
+  _try(out, lambda: world.Kmeth().meth())
+  # objects obtained BEFORE the clear (run under test) or just now (reference run)
+  _try(out, held.get('f') or gin.get_configurable('s/vw.dflt'))
+  kcls = held.get('kcls') or gin.get_configurable('s/vw.Kreg')
+  _try(out, kcls)
+  ref = held.get('ref') or gin.config.parse_value('@vw.src()')
+  out.append(('held reference', _try(out, lambda: copy.deepcopy(ref))))
+  _try(out, lambda: _scoped([held.get('sc') or ['s']], world.dflt))
+  out.append(('singleton key', _try(out, lambda: gin.config.singleton_value('key', lambda: m1)) is m1))
+  out.append(('singleton k', _try(out, lambda: gin.config.singleton_value('k', lambda: m2)) is m2))
+
+
+def _h2_full(held, names, new_objs, out):
+  _try(out, lambda: gin.parse_config(_T2))
+  _calls(held, out)
+  _try(out, gin.finalize)
+  _calls(held, out)
+  _try(out, lambda: gin.get_configurable('s/t/vw.dflt')())
+
+
+def _h2_api(held, names, new_objs, out):
+  _try(out, lambda: gin.bind_parameter('vw.dflt.a', 1))
+  _try(out, lambda: gin.bind_parameter('s/t/vw.dflt.b', 2))
+  _try(out, lambda: gin.bind_parameter('vw.src.v', 4))
+  _calls(held, out)
+
+
+def _h2_defaults(held, names, new_objs, out):
+  _calls(held, out)
+  _try(out, gin.finalize)
+  _calls(held, out)
+
+
+def _h2_static(held, names, new_objs, out):
+  """the module registered through dynamic registration is used WITHOUT it, then with another alias"""
+  _try(out, lambda: gin.parse_config('vf20x.mod.fn.x = 2\nvf20x.mod.consumer.p = @vf20x.mod.fn()\n'))
+  _try(out, lambda: gin.get_configurable('vf20x.mod.consumer')())
+  _try(out, lambda: gin.parse_config('from __gin__ import dynamic_registration\nimport vf20x.mod as zz\n'
+                                     'zz.fn.y = 3\n'))
+  _try(out, lambda: gin.get_configurable('vf20x.mod.consumer')())
+
+
+def _h2_constants(held, names, new_objs, out):
+  """use every constant defined before the clear, by full and by shortest name, then define it again"""
+  for name in names:
+    last = name.rsplit('.', 1)[-1]
+    _try(out, lambda: gin.parse_config('vw.dflt.a = %' + name + '\nvw.dflt.b = 0\n'))
+    out.append(('use', name, _try(out, world.dflt)))
+    _try(out, lambda: gin.parse_config('vw.dflt.a = 0\nvw.dflt.b = %' + last + '\n'))
+    out.append(('use', last, _try(out, world.dflt)))
+  for name in names:
+    _try(out, lambda: gin.constant(name, new_objs[name]))
+    out.append(('again', name, _try(out, lambda: gin.query_parameter(name))))
+  for name in names:
+    last = name.rsplit('.', 1)[-1]
+    _try(out, lambda: gin.parse_config(last + ' = 3\nvw.dflt.a = 0\nvw.dflt.b = %' + last + '\n'))
+    out.append(('macro', last, _try(out, world.dflt)))
+  _try(out, lambda: gin.parse_config('vw.dflt.a = %M\nvw.dflt.b = 0\n'))
+  out.append(('macro M', _try(out, world.dflt)))
+  _try(out, lambda: gin.parse_config('vw.dflt.a = 0\nvw.dflt.b = %s/M\n'))
+  out.append(('macro s/M', _try(out, world.dflt)))
+  _try(out, lambda: gin.parse_config('vw.dflt.b = 0\n'))
+  _try(out, gin.finalize)
+
+
+H2_PLAIN = [('text: import, macro, scoped reference, class and method targets; calls; finalize', _h2_full),
+            ('bind by API, call (provenance of defaults)', _h2_api),
+            ('nothing bound: calls, finalize (hooks), calls', _h2_defaults),
+            ('dynamically registered module used statically, then under another alias', _h2_static)]
+NH2 = len(H2_PLAIN) + NCS - 1          # + one 'use the constants' lifetime per non-empty constant set
+
+
+def _names_of(cset):
+  names = []
+  for name, _ in CONST_SETS[cset]:
+    if name == '@enum':
+      names.extend('vw20e.Color20.' + m for m in Color20.__members__)
+    else:
+      names.append(name)
+  return names
+
+
+def _cset_of(h2):
+  return h2 - len(H2_PLAIN) + 1 if h2 >= len(H2_PLAIN) else 1
+
+
+def _objects(cset):
+  """The constant values of one lifetime, labelled so that two PROCESSES can be compared."""
+  del _LABELS[:]
+  objs = {n: (gin.REQUIRED if n.endswith('_REQ') else object()) for n in _names_of(cset)}
+  new_objs = {n: object() for n in _names_of(cset)}
+  _LABELS.extend((o, ('constant', n)) for n, o in objs.items() if o is not gin.REQUIRED)
+  _LABELS.extend((o, ('redefined', n)) for n, o in new_objs.items())
+  return objs, new_objs
+
+
+def _second_life(held, h2, names, new_objs):
+  del world.LOG[:], world.SRC_CALLS[:], _fx.CALLS[:]
+  o1 = _observe(names)
+  out = []
+  fn = H2_PLAIN[h2][1] if h2 < len(H2_PLAIN) else _h2_constants
+  fn(held, names, new_objs, out)
+  o2 = _observe(names)
+  return [o1, _val(out), o2, _val(list(world.LOG)), _val(list(world.SRC_CALLS)), _val(list(_fx.CALLS))]
+
+
+def _base_strings():
+  return (gin.config_str(), gin.operative_config_str(), gin.config_str(show_provenance=True),
+          gin.operative_config_str(show_provenance=True))
+
+
+def _life_after_clear(pre, how, h2, cc):
+  """History `pre`, clear `how`, absolute checks, then the second lifetime.  Returns its observation or False."""
+  world.fresh()
+  base = _base_strings()
+  _registrations(pre)
+  cset = _cset_of(h2)
+  objs, new_objs = _objects(cset)
+  cleared = cc or how == H_REBUILD
+  held, junk = {}, []
+  defined = _define(cset, objs)
+  PRES[pre][1](held, junk)
+  was_locked = gin.config_is_locked()
+  if not _do_clear(how, cc, junk):
+    return rt.no('clear_config raised / left the configuration locked')
+  # ---- absolute part of the oracle ----
+  if gin.config_is_locked() and not (how == H_UNLOCK and was_locked):
+    # (clear_config inside unlock_config() of a locked configuration: C12 restores the lock on exit, C20 says
+    #  unlocked - either is accepted, the reference is chosen according to what is seen)
+    return rt.no('locked after the clear')
+  if gc._INTERACTIVE_MODE:
+    raise rt.HarnessError('interactive mode left on')
+  if gc._CONFIG or gc._IMPORTS or gc._OPERATIVE_CONFIG or gc._SINGLETONS:
+    return rt.no('a store is not empty')
+  if _base_strings() != base:
+    return rt.no('config strings are not those taken before the history')
+  names = set(n for n, _ in gc._CONSTANTS.items())
+  if names != ({'gin.REQUIRED'} if cleared else {'gin.REQUIRED'} | set(defined)):
+    return rt.no('constants: %r' % (sorted(names),))
+  for name, obj in defined.items():
+    if not cleared and gc._CONSTANTS[name] is not obj:
+      return rt.no('constant changed: ' + name)
+  if cleared and gc._CONSTANTS['gin.REQUIRED'] is not gin.REQUIRED:
+    return rt.no('gin.REQUIRED must be the sentinel')
+  for key in _QUERIES:
+    try:
+      gin.query_parameter(key)
+      return rt.no('still bound: ' + key)
+    except Exception:  # pylint: disable=broad-except
+      pass
+  return _second_life(held, h2, _names_of(cset), new_objs)
+
+
+def _life_fresh(regclass, h2, cleared, lock):
+  """The second lifetime alone, in a process that has done nothing else (see _references)."""
+  world.fresh()
+  _registrations(regclass)
+  cset = _cset_of(h2)
+  objs, new_objs = _objects(cset)
+  if not cleared:
+    _define(cset, objs)            # surviving constants: defined the same way
+  if lock:
+    gc._set_config_is_locked(True)
+  return _second_life({}, h2, _names_of(cset), new_objs)
+
+
+_REFS = {}
+
+
+def _references(regclass):
+  """{(h2, cleared, lock): observation} computed by a FRESH interpreter with the same registrations.
+
+  One child process per registration class and per checking process; the child has never run a history or a
+  clear, so nothing that a defective clear_config (or a store world.fresh() does not know) leaves behind can
+  reach the reference."""
+  if regclass not in _REFS:
+    import base64
+    import pickle
+    import subprocess
+    env = dict(os.environ, VERIF_NO_CROSSHAIR='1', PYTHONDONTWRITEBYTECODE='1')
+    p = subprocess.run([sys.executable, '-m', 'vf.harness.c20', '--references', str(regclass)],
+                       capture_output=True, env=env, timeout=600)
+    i = p.stdout.rfind(b'@@REF@@')
+    if i < 0:
+      raise rt.HarnessError('reference process failed: ' + p.stderr.decode(errors='replace')[-600:])
+    _REFS[regclass] = pickle.loads(base64.b64decode(p.stdout[i + 7:].strip()))
+  return _REFS[regclass]
+
+
+def _child_main(regclass):
+  import base64
+  import pickle
+  refs = {}
+  for h2 in range(NH2):
+    for cleared in (False, True):
+      for lock in (False, True):
+        try:
+          refs[h2, cleared, lock] = _life_fresh(regclass, h2, cleared, lock)
+        except Exception as e:  # pylint: disable=broad-except
+          refs[h2, cleared, lock] = ('reference lifetime raised', type(e).__name__)
+  sys.stdout.write('@@REF@@' + base64.b64encode(pickle.dumps(refs)).decode() + '\n')
+
+
+def _explain(a, b):
+  if os.environ.get('VERIF_EXPLAIN') and not (rt.HAVE_CH and rt._is_tracing()):
+    for i, (x, y) in enumerate(zip(a, b)):
+      if x != y:
+        if isinstance(x, list) and isinstance(y, list):
+          for u, v in zip(x, y):
+            if u != v:
+              sys.stderr.write('DIFF part %d:\n  after clear:   %r\n  fresh process: %r\n' % (i, u, v))
+              break
+          else:
+            sys.stderr.write('DIFF part %d: lengths %d / %d\n' % (i, len(x), len(y)))
+        else:
+          sys.stderr.write('DIFF part %d:\n  after clear:   %r\n  fresh process: %r\n' % (i, x, y))
+        break
+
+
+def c20_life(pre: int, how: int, h2: int, clear_constants: bool) -> bool:
+  """
+  pre: 0 <= pre < 18
+  pre: 0 <= how < 7
+  pre: 0 <= h2 < 12
+  """
+  pre, how, h2 = rt.pick(pre, NPRE), rt.pick(how, NHOW), rt.pick(h2, NH2)
+  cc = rt.flag(clear_constants)
+  rt.sig(('life', pre, how, h2, cc), nontrivial=pre > 0)
+  with rt.native():
+    refs = _references(pre if pre in (P_CONFLICT, P_ADDHOOK, P_INCLUDE) else 0)
+    try:
+      got = _life_after_clear(pre, how, h2, cc)
+      if got is False:
+        return False
+      want = refs[h2, cc or how == H_REBUILD, got[0][0][1]]
+      if got != want:
+        _explain(got, want)
+        return rt.no('the lifetime after the clear differs from the same lifetime in a fresh process')
+    finally:
+      world.fresh()
+  return True
+
+
+
 HARNESSES = {
     'c20_step': dict(
         fn='c20_step',
@@ -145,12 +731,53 @@ HARNESSES = {
         smoke=[dict(b=True, imp=True, op=True, fin=True, sing=True, failp=True, failb=True, consts=1,
                     clear_constants=False, v0=1, v1=2),
                dict(b=True, imp=False, op=False, fin=False, sing=False, failp=False, failb=False,
-                    consts=4, clear_constants=True, v0=1, v1=2)],
-        tiers={'quick': dict(split=dict(consts=list(range(7)), b=[False, True], fin=[False, True]),
+                    consts=4, clear_constants=True, v0=1, v1=2),
+               dict(b=True, imp=False, op=True, fin=True, sing=False, failp=False, failb=False,
+                    consts=7, clear_constants=True, v0=1, v1=2),
+               dict(b=False, imp=True, op=True, fin=False, sing=True, failp=False, failb=False,
+                    consts=8, clear_constants=False, v0=1, v1=2)],
+        tiers={'quick': dict(split=dict(consts=list(range(NCS)), b=[False, True], fin=[False, True]),
                              budget_s=100),
-               'thorough': dict(split=dict(consts=list(range(7)), b=[False, True], fin=[False, True],
+               'thorough': dict(split=dict(consts=list(range(NCS)), b=[False, True], fin=[False, True],
                                            imp=[False, True]), budget_s=300)},
         bounds='pre-state = any combination of {bindings, parsed import + reference, operative record, '
-               'finalized, used singleton, failed parse, failed bind} x 7 constant sets (incl. interactive-mode '
-               'definitions whose names are suffixes of older ones, a constant whose value is the REQUIRED sentinel, gin.REQUIRED overwritten) x clear_constants; bound values: all ints'),
+               'finalized, used singleton, failed parse, failed bind} x 9 constant sets (incl. interactive-mode '
+               'definitions whose names are suffixes of older ones, a constant whose value is the REQUIRED sentinel, '
+               'gin.REQUIRED overwritten, a user constant under gin., constants_from_enum) x clear_constants; '
+               'bound values: all ints'),
+    'c20_life': dict(
+        fn='c20_life',
+        anchors=['gin.config:clear_config', 'gin.selector_map:clear', 'gin.config:constant',
+                 'gin.config:parse_config', 'gin.config:finalize', 'gin.config:unlock_config'],
+        smoke=[dict(pre=i, how=i % NHOW, h2=i % NH2, clear_constants=bool(i % 2)) for i in range(NPRE)] +
+              [dict(pre=2, how=2, h2=0, clear_constants=False), dict(pre=1, how=6, h2=11, clear_constants=True)],
+        tiers={'quick': dict(split=dict(pre=list(range(NPRE))), budget_s=150),
+               # the choice space is finite and already exhausted by the quick tier: same space, larger budget
+               'thorough': dict(split=dict(pre=list(range(NPRE))), budget_s=600)},
+        bounds='18 histories before the clear (%s) x 7 ways of clearing (%s) x clear_constants x 12 second '
+               'lifetimes (%s; use + re-definition of each of the 8 non-empty constant sets by full and by shortest '
+               'name); every step concrete; each lifetime is compared with the same lifetime run after '
+               'fresh interpreter process with the same hooks / file readers / surviving constants'
+               % ('; '.join(p[0] for p in PRES), '; '.join(HOWS), '; '.join(h[0] for h in H2_PLAIN))),
 }
+
+SOLVER_ROLE = ('c20_step decides data (the bound values are unbounded solver integers through bind, clear, re-bind, '
+               'lock, call); c20_life certifies coverage: once the F-choices (history, way of clearing, second '
+               'lifetime) are made every step is concrete text / API calls run natively, and the solver certifies '
+               'that the choice space was covered completely')
+OUTSIDE = ('clear_config() called from inside a finalize hook; clear_config racing other threads (C18); '
+           'config files on the real file system; registrations made between the clear and the comparison')
+ASSUMPTIONS = ['c20_life: "a fresh process with the same registrations" is a child interpreter that imports the same '
+               'modules, registers the same finalize hooks / file readers (they count as registrations), defines the '
+               'surviving constants the same way and then runs only the second lifetime; values are compared by '
+               'label (constant name, enum member, sentinel), outcomes of steps by exception class; one child per '
+               'registration class computes all its reference lifetimes one after the other (world.fresh() between '
+               'them); between paths the checking process itself is reset with world.fresh()',
+               'clear_config() inside `with unlock_config():` on a locked configuration: the lock state seen after '
+               'the block is accepted either way (C12 demands the entry state, C20 an unlocked configuration); '
+               'right after the clear, inside the block, the configuration must be unlocked',
+               'fixture package /verif/fixtures/vf20x (registered once at import of the harness module)']
+
+
+if __name__ == '__main__' and sys.argv[1:2] == ['--references']:
+  _child_main(int(sys.argv[2]))
